@@ -86,6 +86,9 @@ const (
 // unwind position lies (used only to characterise mismatches for known finding F02).
 var nullTailMarks *[]int
 
+// stopMarks receives the offset of every struct STOP byte of the expected output (reset by the caller).
+var stopMarks []int
+
 func expectJ2T(b []byte, v *TVal, o writeOpts) ([]byte, expectErr) {
 	switch v.T.Kind {
 	case tSTRUCT:
@@ -152,6 +155,7 @@ func expectJ2T(b []byte, v *TVal, o writeOpts) ([]byte, expectErr) {
 				b = encodeZero(b, f.T)
 			}
 		}
+		stopMarks = append(stopMarks, len(b))
 		return append(b, 0), expOK
 	case tLIST, tSET:
 		b = append(b, v.T.Elem.Kind)
@@ -264,6 +268,35 @@ func drawJ2TEnv(w *W, expLen, jsLen int) j2tEnv {
 			e.OutPlace = simrt.PlaceCanary
 		default:
 			e.OutPlace = simrt.PlaceGuardEnd
+		}
+	}
+	return e
+}
+
+// drawJ2TEnvAt is drawJ2TEnv with one more capacity class: the caller's buffer is full exactly where the
+// expected output has a zero byte behind the first len(js) bytes - struct STOP bytes are among them, so the
+// buffer runs out right at the end of a (nested) struct, the instant at which the native state machine has
+// already released that struct's bitmap.
+func drawJ2TEnvAt(w *W, exp []byte, jsLen int, stops []int) j2tEnv {
+	e := drawJ2TEnv(w, len(exp), jsLen)
+	if e.DoInto && w.T.Chance(1, 4, "env.cap.atstop") {
+		var zs []int
+		for _, i := range stops { // STOP offsets recorded by the expectJ2T call that produced exp
+			if i >= jsLen && i < len(exp) && exp[i] == 0 {
+				zs = append(zs, i)
+			}
+		}
+		if len(zs) == 0 {
+			for i := jsLen; i < len(exp); i++ {
+				if exp[i] == 0 {
+					zs = append(zs, i)
+				}
+			}
+		}
+		if len(zs) > 0 {
+			e.Delta = zs[w.T.Intn(len(zs), "env.cap.atstop.which")] - jsLen
+			e.Prefix = 0
+			w.Count("cap_at_zero_byte")
 		}
 	}
 	return e
